@@ -116,4 +116,24 @@ CLAIMS = {
                 "schema/component SAX parser are attributed to schema "
                 "documents (C10) and listed, not reported.",
     },
+    "C08": {
+        "level": "other",
+        "technique": "exception-flow analysis with handler-effect tracking "
+                     "at the parser boundary + decision-table cross-check of "
+                     "the handlers + sentinel/argument agreement rules",
+        "text": "Decides that every ConfigurationError-family exception that "
+                "can leave ZConfigParser.parse() outside a nested resource "
+                "was built by the parser's error() from its own url/lineno or "
+                "passed a handler that assigns lineno and url before "
+                "re-raising -- for both spellings of an empty section; that "
+                "lineno counts exactly the lines read and error() uses this "
+                "parser's url and lineno; that position tuples are written in "
+                "the order the consumer unpacks; that placeholder positions "
+                "satisfy the fix-up tests; that every DataConversionError "
+                "carries the caught exception, the converted value and a "
+                "position.  Does not decide which line is the culprit for "
+                "faults detected late; resource-level failures of "
+                "%include/%import are listed, not armed.",
+        "note": _TB + "  Same exception-flow assumptions as C07.",
+    },
 }
